@@ -1,10 +1,10 @@
 (* Model/ConvCorr.v — agreement predicates (model = observed implementation) and
    oracles (the specification Spec/XsdPrims.v judged on the implementation's
    answers) used by the generated case files of the C05 check. *)
-From Coq Require Import NArith ZArith List Bool String.
+From Coq Require Import NArith ZArith List Bool String PrimFloat.
 From XV Require Import Base.Str Base.Dec Base.PyInt Base.Eqb Gen.ConvTables
   Model.ConvBool Model.ConvInt Model.ConvBytes Model.ConvDecimal Model.ConvQName Model.ConvFloat Model.ConvEnum
-  Model.ConvFactory Model.ConvAll Model.ConvGuards Spec.XsdPrims.
+  Model.ConvFactory Model.ConvAll Model.ConvDataType Model.ConvGuards Spec.XsdPrims Spec.XsdDates.
 Import ListNotations.
 Open Scope N_scope.
 
@@ -247,3 +247,21 @@ Definition oracle_priority (c : list (pytype * option value) * option value) : b
   else true.
 Definition priority_case_applies (c : list (pytype * option value) * option value) : bool :=
   forallb (fun r => match pytype_name (fst r) with Some n => existsb (str_eqb n) documented_priority | None => false end) (fst c).
+
+(* ---------------- DataType.from_value ---------------- *)
+Definition agree_from_value (c : fv_input * str) : bool := str_eqb (from_value (fst c)) (snd c).
+(* an XSD-valid g* literal gets the datatype of its own lexical space *)
+Definition oracle_period_datatype (c : period_sp * str) : bool :=
+  negb (wf_period (fst c)) || str_eqb (snd c) (period_kind (fst c)).
+Definition guard_period_sp (c : period_sp * str) : bool := wf_period (fst c).
+(* (datatype, serialized value): the text is in the lexical space of the datatype
+   (judged for the primitive families specified in Spec.XsdPrims; other datatypes pass) *)
+Definition oracle_from_value_lexical (c : str * str) : bool :=
+  let '(dt, s) := c in
+  if str_eqb dt (lit "BOOLEAN") then match xsd_boolean s with Some _ => true | None => false end
+  else if str_eqb dt (lit "SHORT") || str_eqb dt (lit "INT") || str_eqb dt (lit "LONG") || str_eqb dt (lit "INTEGER") then
+    let i := parse_integer_sp s in wf_integer i && str_eqb (lex_integer i) s && xsd_integer_type_contains dt (val_integer i)
+  else if str_eqb dt (lit "DECIMAL") then
+    let d := parse_decimal_sp s in wf_decimal d && str_eqb (lex_decimal d) s
+  else if str_eqb dt (lit "FLOAT") || str_eqb dt (lit "DOUBLE") then oracle_double_lexical s
+  else true.
